@@ -166,6 +166,77 @@ def check_history(ctx, case, record=True):
     return ctx.fail(kind, detail, case, bucket=kind)
 
 
+def check_interleaved(ctx, case):
+    """2..3 histories decoded by generators of ONE definition object that are advanced in a drawn interleaving: every
+    generator must yield what the reference gives for its own history (groups are per stream, not per definition)"""
+    import warnings
+    ctx.count()
+    hs = case["histories"]
+    pkts = [build_packets(h) for h in hs]
+    d = defn()
+    gens, got, done = [], [[] for _ in hs], [False] * len(hs)
+    with warnings.catch_warnings():
+        warnings.simplefilter("ignore")
+        for h, pp in zip(hs, pkts):
+            gens.append(d.packet_generator(b"".join(p[3] for p in pp), combine_segmented_packets=True,
+                                           secondary_header_bytes=h["s"]))
+        budget = sum(len(pp) for pp in pkts) + len(hs) + 2
+        order = list(case["schedule"]) + [i for i in range(len(hs))] * budget
+        try:
+            for gi in order:
+                if all(done):
+                    break
+                if done[gi]:
+                    continue
+                try:
+                    got[gi].append(bytes(next(gens[gi]).raw_data))
+                except StopIteration:
+                    done[gi] = True
+                if sum(len(g) for g in got) > budget:
+                    return ctx.fail("no-termination", "interleaved generators yield more items than there are packets", case)
+        except Exception as e:
+            return ctx.fail("raised", f"interleaved generators raised {e!r}", case, bucket="interleaved-raised:" + exc_sig(e))
+    open_at_switch = False
+    for gi, (h, pp) in enumerate(zip(hs, pkts)):
+        exps = [[assemble(pp, g, h["s"]) for g in model(pp, h["s"], ub)[0]] for ub in (False, True)]
+        if got[gi] not in exps:
+            return ctx.fail("interleaved-outputs", f"generator {gi} of {len(hs)} on one definition, schedule "
+                                                   f"{case['schedule'][:30]}: history {describe(pp)} s={h['s']} yielded "
+                                                   f"{[g.hex() for g in got[gi]]}, expected {[e.hex() for e in exps[0]]}",
+                            case, bucket="interleaved-outputs")
+        if any(len(g) > 1 for g in model(pp, h["s"], False)[0]):
+            open_at_switch = True
+    ctx.cls("interleaved generators on one definition")
+    if open_at_switch and len(set(case["schedule"])) > 1:
+        ctx.cls("interleaved: a combined group in a stream that is advanced alternately with another")
+        ctx.nontrivial(case)
+        ctx.cls("nontrivial")
+    return None
+
+
+@st.composite
+def gen_interleaved(draw):
+    n = draw(st.integers(2, 3))
+    hs = []
+    pool = draw(st.lists(st.integers(0, 2047), min_size=4, max_size=4, unique=True))
+    for _ in range(n):
+        h = draw(gen_case())
+        h["apids"] = pool[:len(h["apids"])]    # the streams share their APIDs: that is what a shared table would confuse
+        h["steps"] = h["steps"][:12]
+        if draw(st.booleans()):
+            k = draw(st.integers(0, 3))
+            h["steps"] = ([{"f": FIRST, "a": 0, "gap": 0, "n": 2}] + [{"f": CONT, "a": 0, "gap": 0, "n": 1}] * k +
+                          [{"f": LAST, "a": 0, "gap": 0, "n": 3}]) * draw(st.integers(1, 2)) + h["steps"][:4]
+        hs.append(h)
+    total = sum(len(h["steps"]) for h in hs)
+    schedule = draw(st.lists(st.integers(0, n - 1), min_size=0, max_size=total + 2))
+    return {"histories": hs, "schedule": schedule}
+
+
+def part_interleaved(ctx, examples):
+    hyp_run(ctx, gen_interleaved(), check_interleaved, examples)
+
+
 def describe(pkts):
     names = {0: "CONT", 1: "FIRST", 2: "LAST", 3: "UNSEG"}
     return " ".join(f"{names[f]}(apid={a},n={c})" for a, f, c, _ in pkts)
@@ -230,8 +301,8 @@ def part_generated(ctx, examples):
     hyp_run(ctx, gen_case(), check_generated, examples)
 
 
-PARTS = {"exhaustive": part_exhaustive, "generated": part_generated}
-REPLAY = {"exhaustive": check_generated, "generated": check_generated}
+PARTS = {"exhaustive": part_exhaustive, "generated": part_generated, "interleaved": part_interleaved}
+REPLAY = {"exhaustive": check_generated, "generated": check_generated, "interleaved": check_interleaved}
 KNOWN = {}
 FLOORS = {"nontrivial": ("", 0.2)}
 
@@ -253,6 +324,8 @@ def plan(tier, seed):
         exh(4, 1, 4, one_apid=True)
         for _ in range(8):
             tasks.append(("generated", {"examples": 400}))
+        for _ in range(3):
+            tasks.append(("interleaved", {"examples": 300}))
     else:
         for s in (0, 2):
             for length in (1, 2, 3, 4):
@@ -263,4 +336,6 @@ def plan(tier, seed):
         exh(6, 3, 64, one_apid=True)
         for _ in range(16):
             tasks.append(("generated", {"examples": 6000}))
+        for _ in range(8):
+            tasks.append(("interleaved", {"examples": 3000}))
     return tasks
